@@ -11,6 +11,8 @@ mod verdict;
 mod cachesched;
 mod cachefault;
 mod fetch;
+mod backend;
+mod configx;
 
 use std::collections::HashMap;
 
@@ -61,6 +63,8 @@ fn main() {
         "crash-child" => cachefault::run_child(&args),
         "migrate" => cachefault::run_migrate(&args),
         "fetch" => fetch::run(&args),
+        "backend" => backend::run(&args),
+        "config" => configx::run(&args),
         other => {
             eprintln!("unknown stream {other}");
             std::process::exit(2);
